@@ -545,3 +545,21 @@ pub fn c08<E: IGlue>(ctx: &mut Ctx) {
     ctx.class(&format!("derives={}", spec.derives.join("+")));
     ctx.sample(json!({"enum": spec.name, "mask": mask, "derives": spec.derives, "names": E::variant_names().map(|n| n.to_vec())}));
 }
+
+/// libFuzzer entry: bytes decode to a call history (one byte per operation)
+pub fn fuzz_iter<E: IGlue>(a: &mut FzArg) {
+    let m = IterModel::new(a.spec);
+    let n = m.enabled.len();
+    let alpha = alphabet(n, true);
+    let mut h: Vec<Op> = Vec::new();
+    for (i, b) in a.data.iter().take(96).enumerate() {
+        let op = alpha[*b as usize % alpha.len()].clone();
+        h.push(match op {
+            Op::Switch(_) => Op::Switch(i),
+            o => o,
+        });
+    }
+    if let Err((k, e, g)) = run_history::<E>(&m, &h) {
+        a.out = Some(json!({"kind": format!("iter:{}", k), "input": {"history": hist_json(&h), "n_enabled": n, "class": "libfuzzer"}, "expected": e, "actual": g}));
+    }
+}
